@@ -18,7 +18,7 @@ PROPERTY = "C12"
 LEVEL = "exploration"
 BUDGET_S = {"quick": 45, "thorough": 600}
 FLOOR = {"quick": 1500, "thorough": 15000}
-MUST_REACH = ("constructions_judged", "lines_represented", "lines_ignorable", "lines_reported", "constructions_failed_whole")
+MUST_REACH = ("constructions_judged", "lines_represented", "lines_ignorable", "lines_reported", "constructions_failed_whole", "config_level_constructions")
 RULE = ("texts for Acl (extended, standard), AceGroup and AddrGroup on both platforms whose body mixes, in any order and "
         "proportion, valid lines (C01 grammar, remarks, members), documented ignorable lines (statistics/description/ignore) "
         "and invalid lines (token soup, broken permit/deny lines, bad protocols/addresses, bare numbers, 'remark' without "
@@ -87,7 +87,16 @@ def execute(ctx, case: dict) -> None:
     obj = None
     error = None
     try:
-        obj = getattr(cisco_acl, cls_name)(text, **kwargs)
+        if case.get("via_config"):
+            # the same text handed to the config-level function (sections, indentation handling in front of the Acl)
+            got = cisco_acl.acls(text, **kwargs)
+            if len(got) != 1:
+                ctx.violation(case, "acls() did not return the one ACL of the configuration", [a.name for a in got])
+                return
+            obj = got[0]
+            ctx.count("config_level_constructions")
+        else:
+            obj = getattr(cisco_acl, cls_name)(text, **kwargs)
     except Exception as ex:  # pylint: disable=broad-except
         error = ex
     records = list(RECORDS)
@@ -223,6 +232,9 @@ def gen_case(rng):
             case["header"] = grammar.acl_header(platform, rng.choice(grammar.ACL_NAMES), acl_type)
             if heading and rng.random() < 0.5:
                 case["group_by"] = heading
+            if rng.random() < 0.25 and lines and not any(ln[0].startswith("!") for ln in lines):
+                case["via_config"] = True
+                case["indent"] = rng.choice([" ", "  ", "\t", "\t\t", " \t"])
         return case
     for idx in range(n):
         r2 = rng.random()
